@@ -3,7 +3,7 @@
    Model: scopes/Machine.v (S machine).  Tie T: ChainGen.v is regenerated from the Python source by
    tools/translate_chain.py on every check; the *_gen_eq theorems below are what breaks when a walk changes. *)
 From AV Require Import Base Machine ChainSpec ChainGen ChainEq ChainFrame ChainThms ChainWalk ChainMono NativeAbsorbed.
-From AV Require Import DeliverInv TreeStep ChainReach ChainWindow.
+From AV Require Import DeliverInv TreeStep ChainReach ChainWindow DeliverAlive ReceiptWalk ReceiptRun.
 
 (* ---------------- tie T: generated code = specification, for all chains ---------------- *)
 (* a scope record carries r_hosted = `_host_task is not None` (entered, not yet exited).  Since the F42 fix the walks
@@ -315,9 +315,8 @@ Print Assumptions C04_reach_request_chain.
    C04_caught_only_by_absorbing_exit), then the walk at receipt time still finds a cancelled scope UNLESS a scope on the
    chain strictly below the origin (the current scope included) had its shield raised in between and is not itself
    cancelled -- the pattern of F25, and nothing else.
-   `_partial`: the lifting to whole runs (every receipt of every run has such a request state, with the chain
-   unchanged in between) is stated as ChainWindow.receipt_window_run_statement and is NOT proved; it needs, for every
-   op of step, that tagged requests are only placed by delivery runs and that a suspended task's chain is frozen. *)
+   `_partial`: this is the two-state core; its lifting to whole runs (every receipt of every run has such a request
+   state, with the chain unchanged in between) is C04_receipt_visible_unless_shield_raised below. *)
 Theorem C04_receipt_visible_unless_shield_raised_partial : forall (s0 s1 : st) (n : nat) (x org : sid) (k : nat),
   up s0 x n = Some org ->
   (forall j y, j < n -> up s0 x j = Some y ->
@@ -363,3 +362,128 @@ Theorem C04_reused_scope_born_cancelled_refuted :
   snd (step s3 (ARun (HStep 1))) = RExc (ECancel 2).
 Proof. exact reused_scope_born_cancelled_refuted. Qed.
 Print Assumptions C04_reused_scope_born_cancelled_refuted.
+
+(* ---------------- the request-to-receipt window for every receipt of every run ---------------- *)
+(* Notions (scopes/ReceiptWalk.v): Held s t org -- task t holds a cancellation request tagged with scope org
+   (Task._must_cancel with that message, or the future it waits on was cancelled with it);  OC s t org -- org is
+   cancelled and the walk from t's current scope reaches it through unshielded, uncancelled scopes;  aff a o -- the
+   tasks op o affects directly (its actor or the task it resumes, a task it creates, the task whose done-callback it
+   runs);  up s x n -- the n-th scope above x;  receives s h t org -- running ready handle h makes t receive
+   CancelledError tagged with org. *)
+
+(* (a) for every op of every reachable state: a tagged request that a task not affected by the op holds afterwards
+   and did not hold before was placed by a delivery run of its origin, which is cancelled and visible from the task's
+   current scope -- in the state before the op (the delivery ran before any flag changed) or after it *)
+Theorem C04_request_only_by_visible_delivery : forall (a : st) (o : op) (t : tid) (org : sid),
+  reach_ok a -> op_ok a o = true -> ~ In t (aff a o) ->
+  Held (fst (step a o)) t org -> Held a t org \/ OC a t org \/ OC (fst (step a o)) t org.
+Proof. exact request_only_by_visible_delivery. Qed.
+Print Assumptions C04_request_only_by_visible_delivery.
+
+(* ... and the affected tasks: unless the op was rejected or the resumed task had ended (nothing but the ready queue
+   changes), the acting / resumed task holds no request afterwards, and a task the op creates holds none or one
+   justified in the state after the op (MP: a recorded request and a pending wait exclude each other; it holds in
+   every reachable state, C04_request_excludes_pending_wait) *)
+Theorem C04_request_of_affected_task : forall (a : st) (o : op) (t : tid) (org : sid),
+  reach_ok a -> op_ok a o = true -> MP a -> In t (aff a o) ->
+  Held (fst (step a o)) t org -> k_done (tasks (fst (step a o)) t) = None ->
+  Same a (fst (step a o)) \/ OC (fst (step a o)) t org.
+Proof. exact request_of_affected_task. Qed.
+Print Assumptions C04_request_of_affected_task.
+
+Theorem C04_request_excludes_pending_wait : forall (ops : list op) (t : tid) (f : fid),
+  ops_ok init ops = true ->
+  k_must (tasks (final step init ops) t) = true -> k_waiter (tasks (final step init ops) t) = Some f ->
+  f_st (futs (final step init ops) f) <> FPend.
+Proof. exact request_excludes_pending_wait. Qed.
+Print Assumptions C04_request_excludes_pending_wait.
+
+(* (b) for every op of every reachable state: a task the op does not affect keeps its record up to the cancel counter
+   and the request flag (tk_core: so its current scope, its wait, its outcome), the parent link of every entered scope
+   is unchanged, and no scope is un-cancelled (shields and deadlines may change: F25) *)
+Theorem C04_suspended_task_frame : forall (a : st) (o : op) (t : tid),
+  reach_ok a -> op_ok a o = true -> t < ntask a -> ~ In t (aff a o) ->
+  ScopeFrames.tk_core (tasks (fst (step a o)) t) = ScopeFrames.tk_core (tasks a t) /\
+  (forall y, s_active (scopes a y) = true -> s_parent (scopes (fst (step a o)) y) = s_parent (scopes a y)) /\
+  (forall y, y < nscope a -> s_cancelled (scopes a y) = true -> s_cancelled (scopes (fst (step a o)) y) = true).
+Proof. exact suspended_task_frame. Qed.
+Print Assumptions C04_suspended_task_frame.
+
+(* every request held by an unfinished task in every run: there is a prefix of the run (the moment it was placed) at
+   which the origin was cancelled and visible from the task's current scope through unshielded, uncancelled scopes; the
+   task's current scope is the same now; and now the walk still finds a cancelled scope unless a shield was raised in
+   between on a scope strictly below the origin *)
+Theorem C04_request_visible_unless_shield_raised : forall (ops : list op) (t : tid) (org : sid),
+  ops_ok init ops = true ->
+  Held (final step init ops) t org -> k_done (tasks (final step init ops) t) = None ->
+  exists pre post x n,
+    ops = pre ++ post /\
+    let s0 := final step init pre in let s1 := final step init ops in
+    k_cur (tasks s0 t) = Some x /\ k_cur (tasks s1 t) = Some x /\ up s0 x n = Some org /\
+    s_cancelled (scopes s0 org) = true /\
+    (forall j y, j < n -> up s0 x j = Some y -> s_cancelled (scopes s0 y) = false /\ s_shield (scopes s0 y) = false) /\
+    (eff_cancelled s1 x = true \/
+     exists j y, j < n /\ up s0 x j = Some y /\ s_shield (scopes s0 y) = false /\ s_shield (scopes s1 y) = true).
+Proof. exact request_window. Qed.
+Print Assumptions C04_request_visible_unless_shield_raised.
+
+(* what a receipt is: a request held by the (unfinished) task, or an exception read from the future it waited on *)
+Theorem C04_receipt_is_request_or_future : forall (s : st) (h : handle) (t : tid) (org : sid),
+  reach_ok s -> receives s h t org ->
+  (Held s t org /\ k_done (tasks s t) = None) \/
+  (exists f, h = HWake t f /\ f_st (futs s f) = FExc (ECancel (S org))).
+Proof. exact receipt_is_request_or_future. Qed.
+Print Assumptions C04_receipt_is_request_or_future.
+
+(* EVERY receipt of RExc (ECancel (S org)) in EVERY run of the generated domain: either the exception was read from a
+   future completed with an exception -- in the model only the future of TaskGroup.start() is, by the child's task_done
+   with the child's own exception: C07's routing ("if the child ends before calling started(), start() raises the
+   child's exception", DESIGN 11.9), not a request -- or org was cancelled and visible from the task's current scope when
+   the request was placed, and at receipt it still is unless a shield was raised in between on a scope strictly below
+   org (F25's pattern and nothing else) *)
+Theorem C04_receipt_visible_unless_shield_raised : forall (ops : list op) (h : handle) (t : tid) (org : sid),
+  ops_ok init ops = true -> receives (final step init ops) h t org ->
+  (exists f, h = HWake t f /\ f_st (futs (final step init ops) f) = FExc (ECancel (S org))) \/
+  exists pre post x n,
+    ops = pre ++ post /\
+    let s0 := final step init pre in let s1 := final step init ops in
+    k_cur (tasks s0 t) = Some x /\ k_cur (tasks s1 t) = Some x /\ up s0 x n = Some org /\
+    s_cancelled (scopes s0 org) = true /\
+    (forall j y, j < n -> up s0 x j = Some y -> s_cancelled (scopes s0 y) = false /\ s_shield (scopes s0 y) = false) /\
+    (eff_cancelled s1 x = true \/
+     exists j y, j < n /\ up s0 x j = Some y /\ s_shield (scopes s0 y) = false /\ s_shield (scopes s1 y) = true).
+Proof. exact receipt_window_run_holds. Qed.
+Print Assumptions C04_receipt_visible_unless_shield_raised.
+
+(* the first disjunct is needed: start() re-raises the child's scope-tagged cancellation in a caller whose current
+   scope was shielded from its creation (C07 governs this path).  Task 1 sits in the shielded scope 2 inside the group
+   scope 1 and calls start(); the child is cancelled through scope 1 before started() and ends with "Cancelled via
+   cancel scope 1"; its task_done hands that exception to the start future 6; task 1 reads it from there *)
+Theorem C04_start_reraises_child_cancellation_witness :
+  let ops := [ANewRoot; AGroupNew 1; AGroupEnter 1 1; ANewScope 1 None true; AEnter 1 2; AStart 1 1; ARun (HStep 2);
+              ANewRoot; ACancel 3 1; ARun (HWake 2 7); AFinish 2 0; ARun (HDeliver 1); ARun (HTaskDone 2)] in
+  let s := final step init ops in
+  ops_ok init ops = true /\
+  receives s (HWake 1 6) 1 1 /\ snd (step s (ARun (HWake 1 6))) = RExc (ECancel 2) /\
+  k_startfut (tasks s 2) = Some 6 /\ f_st (futs s 6) = FExc (ECancel 2) /\
+  k_done (tasks s 2) = Some (OCanc (ECancel 2)) /\
+  k_must (tasks s 1) = false /\ k_cur (tasks s 1) = Some 2 /\ s_shield (scopes s 2) = true /\
+  eff_cancelled s 2 = false.
+Proof. exact start_reraises_child_cancellation_witness. Qed.
+Print Assumptions C04_start_reraises_child_cancellation_witness.
+
+(* ... so the statement without that disjunct (ChainWindow.receipt_window_without_future_path, the form in which the
+   run-level statement was first written down) is false *)
+Theorem C04_receipt_window_without_future_path_refuted :
+  ~ (forall ops h t org,
+       ops_ok init ops = true -> receives (final step init ops) h t org ->
+       exists pre post x n,
+         ops = pre ++ post /\
+         let s0 := final step init pre in let s1 := final step init ops in
+         k_cur (tasks s0 t) = Some x /\ k_cur (tasks s1 t) = Some x /\ up s0 x n = Some org /\
+         s_cancelled (scopes s0 org) = true /\
+         (forall j y, j < n -> up s0 x j = Some y -> s_cancelled (scopes s0 y) = false /\ s_shield (scopes s0 y) = false) /\
+         (eff_cancelled s1 x = true \/
+          exists j y, j < n /\ up s0 x j = Some y /\ s_shield (scopes s0 y) = false /\ s_shield (scopes s1 y) = true)).
+Proof. exact receipt_window_without_future_path_refuted. Qed.
+Print Assumptions C04_receipt_window_without_future_path_refuted.
